@@ -583,7 +583,7 @@ impl Check for C11Check {
         120
     }
     fn rule(&self) -> &'static str {
-        "case = container emitted by the real compiler for a ProgGen project (+ bulk units) and a second container of a sibling project; clean path: validate, decode(encode(m)) = m, encode(decode(b)) = b; then storage faults on the bytes: EVERY truncation (<= 6000 bytes, else 1500 seeded offsets), EVERY 4-byte field inflated to 0x00FFFFFF and every aligned field set to 0/1/2 (CRC flag cleared; decode/validate/metadata only), the listed 1-3 bit flips (half of them with an extra flip on the header's CRC flag), 0xFF blow-ups of 4-byte fields with the CRC flag cleared, zeroed ranges, torn mixes of the two containers at seeded offsets; each damaged container runs decode / validate / metadata under a counting allocator and, if it validates, is hot reloaded into a running world after k cycles followed by two more cycles; plus ~740 structure-aware mutants per container (decoded module changed in memory and re-encoded with a fresh checksum: type entries turned into one-/two-entry cycles of subranges, aliases, arrays with a constant of that type; every table index at the table end and at u32::MAX; header/section flag bits; constant payloads empty/short/long), a tenth of the validating ones hot-reloaded; decode(encode(m)) = m for every module decoded from any damaged container; distinct non-trivial = distinct (container hash, fault kind) pairs"
+        "case = container emitted by the real compiler for a ProgGen project (+ bulk units) and a second container of a sibling project; clean path: validate, decode(encode(m)) = m, encode(decode(b)) = b; then storage faults on the bytes: EVERY truncation (<= 6000 bytes, else 1500 seeded offsets), EVERY 4-byte field inflated to 0x00FFFFFF and every aligned field set to 0/1/2 (CRC flag cleared; decode/validate/metadata only), the listed 1-3 bit flips (half of them with an extra flip on the header's CRC flag), 0xFF blow-ups of 4-byte fields with the CRC flag cleared, zeroed ranges, torn mixes of the two containers at seeded offsets; each damaged container runs decode / validate / metadata under a counting allocator and, if it validates, is hot reloaded into a running world after k cycles followed by two more cycles; plus ~740 structure-aware mutants per container (decoded module changed in memory and re-encoded with a fresh checksum: type entries turned into one-/two-entry cycles of subranges, aliases, arrays with a constant of that type; every table index at the table end and at u32::MAX; header/section flag bits; constant payloads empty/short/long), a tenth of the validating ones hot-reloaded; decode(encode(m)) = m for every module decoded from any damaged container; round 3: every table emptied and every section dropped, accepted program without a valid container is a violation, hot reload of the clean container through the real resource thread (requester waiting / requester gone); distinct non-trivial = distinct (container hash, fault kind) pairs"
     }
     fn assumptions(&self) -> Vec<&'static str> {
         vec![
